@@ -423,9 +423,10 @@ func cidrTokOfString(s string) string {
 		return "?"
 	}
 	c, ok := canon.FromIPNet(n)
-	if !ok || n.String() != s {
+	if !ok {
 		return "?"
 	}
+	// another spelling of a plain network (host bits set, upper case) is that network: the code only ever parses it
 	return c.Tok()
 }
 
